@@ -18,9 +18,10 @@ Qed.
 (* ---------- update_sparse ---------- *)
 Lemma sparse_step : forall lgk s M rc t,
   Inv lgk s M -> windowed s = false -> c_table s = Some t -> valid lgk rc ->
+  fits lgk (spec_update M rc) (pop_rows (spec_update M rc) (Knat lgk)) ->
   exists s', update_sparse s rc = Ok s' /\ Inv lgk s' (spec_update M rc).
 Proof.
-  intros lgk s M rc t I Hw Ht [Hrow Hrc].
+  intros lgk s M rc t I Hw Ht [Hrow Hrc] Hfits.
   pose proof I as I0.
   destruct I as [R Hl Hrg Hoff Hwin Hfl Hfic Hnm].
   pose proof (rep_wf s M R) as W.
@@ -37,7 +38,7 @@ Proof.
   unfold tbl_insert. assert (rc =? U32MAX = false) as -> by (apply N.eqb_neq; exact Hrc). cbn [orb].
   destruct (memN rc t) eqn:Emem.
   - (* already present *)
-    eexists. split; [reflexivity|]. apply inv_dup; try assumption.
+    cbn [obind]. eexists. split; [reflexivity|]. apply inv_dup; try assumption.
     rewrite <- (rep_bits s M R) by (rewrite ?Hl; try exact Hrow; lia).
     rewrite Hsk, rc_recompose. exact Emem.
   - (* novel *)
@@ -61,8 +62,15 @@ Proof.
         rewrite memN_cons, (N.eqb_sym (r * 64 + c) rc), pair_eqb by exact Hc.
         rewrite (N.eqb_sym (rc mod 64) c). apply orb_comm. }
     assert (Hw1 : windowed s1 = false) by (unfold s1, windowed in *; proj; exact Hw).
-    fold s1.
     assert (Hn1 : c_num s1 = c_num s + 1) by reflexivity.
+    assert (Hfull : tbl_full lgk (N.of_nat (length t) + 1) = false).
+    { pose proof (table_load s1 _ R1) as TL. rewrite Hw1 in TL.
+      assert (El : tlist s1 = rc :: t) by reflexivity. rewrite El in TL. cbn [length] in TL.
+      assert (Eo : c_off s1 = 0) by exact Hoff0. assert (Ek : c_lgk s1 = lgk) by exact Hl. rewrite Eo, Ek in TL.
+      destruct Hfits as [Hf1 _].
+      pose proof (rep_num s1 _ R1) as Hn'. rewrite Ek, Hn1 in Hn'. rewrite <- Hn' in Hf1.
+      replace (N.of_nat (length t) + 1) with (N.of_nat (S (length t))) by lia. rewrite TL. apply Hf1. lia. }
+    rewrite Hfull. cbn [obind]. fold s1.
     assert (Hl1 : c_lgk s1 = lgk) by exact Hl.
     rewrite Hn1.
     destruct (3 * 2 ^ lgk <=? (c_num s + 1) * 32) eqn:Ethr.
@@ -102,11 +110,12 @@ Qed.
 Lemma move_window_ok : forall lgk s M,
   Rep s M -> c_lgk s = lgk -> 4 <= lgk <= 26 -> c_table s <> None -> Mnomax lgk M -> c_num s <> 0 ->
   c_off s + 1 = coff (2 ^ lgk) (c_num s) -> 8 * c_num s < 475 * 2 ^ lgk ->
+  tbl_full lgk (load lgk M true (c_off s + 1)) = false ->
   exists s2, move_window s = Ok s2 /\ Rep s2 M /\ c_lgk s2 = lgk /\ c_num s2 = c_num s /\
      c_off s2 = c_off s + 1 /\ windowed s2 = true /\ c_fic s2 <= c_off s2 /\
      (forall r c, r < 2 ^ lgk -> c < c_fic s2 -> N.testbit (M r) c = true).
 Proof.
-  intros lgk s M R Hl Hrg Htab Hnm HC Hco Hdom.
+  intros lgk s M R Hl Hrg Htab Hnm HC Hco Hdom Hfit.
   pose proof (pow_pos lgk) as HK.
   pose proof (coff_le56 (2 ^ lgk) (c_num s) HK Hdom) as H56.
   unfold move_window. consts. rewrite Hl.
@@ -122,7 +131,12 @@ Proof.
   assert (Hmnm : forall r c, r < 2 ^ lgk -> c < 64 -> N.testbit (nthN m r 0) c = true -> r * 64 + c <> U32MAX).
   { intros r c Hr Hc Hb. apply Hnm; try assumption. rewrite <- HmM; assumption. }
   change MW_FF with 255. change MW_FF2 with 255.
-  destruct (from_matrix_succeeds lgk m (c_off s + 1) Hlen ltac:(lia) Hmnm) as [win [tab [fic Efm]]].
+  assert (Hfit' : tbl_full lgk (load lgk (fun r => nthN m r 0) true (c_off s + 1)) = false).
+  { rewrite <- Hfit. f_equal. unfold load. f_equal. f_equal. apply filter_ext_in. intros x Hx.
+    apply positions_In in Hx. unfold surp.
+    assert (Hr : x / 64 < 2 ^ lgk) by lia. assert (Hc : x mod 64 < 64) by lia.
+    rewrite (HmM _ _ Hr Hc). reflexivity. }
+  destruct (from_matrix_succeeds lgk m (c_off s + 1) Hlen ltac:(lia) Hmnm Hfit') as [win [tab [fic Efm]]].
   rewrite Efm. cbn [obind].
   eexists. split; [reflexivity|].
   destruct (from_matrix_state lgk m (c_off s + 1) (c_num s) fic (c_merge s)
@@ -134,9 +148,8 @@ Proof.
     - intros r c Hr Hc. rewrite Hb2 by assumption. apply HmM; assumption.
     - pose proof (rep_num s M R) as Hn. rewrite Hl in Hn. exact Hn. }
   proj. repeat split; try reflexivity; try exact Hw2.
-  - unfold from_matrix in Efm. destruct (memN U32MAX _); [discriminate|]. injection Efm as _ _ <-.
-    apply (fm_fic_ok lgk m (c_off s + 1) Hlen ltac:(lia)).
-  - intros r c Hr Hc. unfold from_matrix in Efm. destruct (memN U32MAX _); [discriminate|]. injection Efm as _ _ <-.
+  - rewrite (from_matrix_fic _ _ _ _ _ _ _ _ Efm). apply (fm_fic_ok lgk m (c_off s + 1) Hlen ltac:(lia)).
+  - intros r c Hr Hc. rewrite (from_matrix_fic _ _ _ _ _ _ _ _ Efm) in Hc.
     assert (c < 64).
     { pose proof (proj1 (fm_fic_ok lgk m (c_off s + 1) Hlen ltac:(lia))). lia. }
     rewrite <- HmM by assumption.
@@ -160,9 +173,10 @@ Lemma finish_ok : forall lgk s s' M rc,
   Rep (update_hip (set_num s' (c_num s + 1)) rc) (spec_update M rc) ->
   windowed s' = true -> c_off s' = c_off s -> c_fic s' = c_fic s -> c_lgk s' = lgk -> c_table s' <> None ->
   8 * pop_rows (spec_update M rc) (Knat lgk) < 475 * 2 ^ lgk ->
+  fits lgk (spec_update M rc) (pop_rows (spec_update M rc) (Knat lgk)) ->
   exists s2, uw_finish lgk s s' rc = Ok s2 /\ Inv lgk s2 (spec_update M rc).
 Proof.
-  intros lgk s s' M rc I Hw [Hrow Hrc] R1 Hw1 Ho1 Hf1 Hl1 Ht1 Hdom.
+  intros lgk s s' M rc I Hw [Hrow Hrc] R1 Hw1 Ho1 Hf1 Hl1 Ht1 Hdom Hfits.
   destruct I as [R Hl Hrg Hoff Hwin Hfl Hfic Hnm].
   pose proof (pow_pos lgk) as HK.
   unfold uw_finish.
@@ -182,6 +196,10 @@ Proof.
       [s2 [E2 [R2 [Hl2 [Hn2 [Ho2 [Hw2 [Hfl2 Hfic2]]]]]]]].
     { rewrite Hn1, Hmv, <- Hoff. unfold s1. proj. rewrite Ho1. reflexivity. }
     { rewrite Hn1. exact Hdom1. }
+    { assert (Ep : pop_rows (spec_update M rc) (Knat lgk) = c_num s + 1).
+      { rewrite <- Hn1, (rep_num s1 _ R1), Hl1'. reflexivity. }
+      destruct Hfits as [_ Hf2']. rewrite Ep in Hf2'. destruct (Hf2' ltac:(lia)) as [_ Hb].
+      rewrite Hmv, <- Hoff in Hb. unfold s1. proj. rewrite Ho1. exact Hb. }
     rewrite E2. cbn [obind].
     assert (Ho2' : c_off s2 = coff (2 ^ lgk) (c_num s + 1)).
     { rewrite Ho2, Hmv, <- Hoff. unfold s1. proj. rewrite Ho1. reflexivity. }
@@ -235,9 +253,10 @@ Proof. intros s r c H. unfold sk_bit. rewrite H. reflexivity. Qed.
 Lemma windowed_step : forall lgk s M rc,
   Inv lgk s M -> windowed s = true -> valid lgk rc ->
   8 * pop_rows (spec_update M rc) (Knat lgk) < 475 * 2 ^ lgk ->
+  fits lgk (spec_update M rc) (pop_rows (spec_update M rc) (Knat lgk)) ->
   exists s', update_windowed s rc = Ok s' /\ Inv lgk s' (spec_update M rc).
 Proof.
-  intros lgk s M rc I Hw V Hdom. pose proof V as [Hrow Hrc]. pose proof I as I0.
+  intros lgk s M rc I Hw V Hdom Hfits. pose proof V as [Hrow Hrc]. pose proof I as I0.
   destruct I as [R Hl Hrg Hoff Hwin Hfl Hfic Hnm].
   pose proof (rep_wf s M R) as W. pose proof (pow_pos lgk) as HK.
   destruct (c_table s) as [t|] eqn:Ht.
@@ -327,29 +346,40 @@ Proof.
     + (* late zone: normal logic *)
       unfold tbl_insert. assert (rc =? U32MAX = false) as -> by (apply N.eqb_neq; exact Hrc). cbn [orb].
       destruct (memN rc t) eqn:Emem.
-      * cbv iota beta. rewrite (set_table_same s t Ht). eexists. split; [reflexivity|].
+      * cbn [obind]. cbv iota beta. rewrite (set_table_same s t Ht). eexists. split; [reflexivity|].
         apply inv_dup; try assumption. rewrite HMb, Hsk0. reflexivity.
-      * change (exists s', uw_finish lgk s (set_table s (Some (rc :: t))) rc = Ok s' /\ Inv lgk s' (spec_update M rc)).
-        apply finish_ok; try assumption; proj; try reflexivity; try discriminate.
-        set (s1 := update_hip (set_num (set_table s (Some (rc :: t))) (c_num s + 1)) rc).
+      * set (s1 := update_hip (set_num (set_table s (Some (rc :: t))) (c_num s + 1)) rc).
         assert (Hw1 : windowed s1 = true) by exact Hw.
-        apply (rep_novel s s1 M rc R); try assumption; try reflexivity.
-        -- destruct W. constructor; rewrite ?Hw1; unfold s1, tlist in *; proj; rewrite ?Ht in *.
-           ++ constructor; [apply memN_false; exact Emem|exact ND].
-           ++ intros x [Hx|Hx]; [subst x; exact Hrow'|apply wf_rows; exact Hx].
-           ++ intros x [Hx|Hx]; [subst x; exact Hrc|apply wf_nomax; exact Hx].
-           ++ intros _ x [Hx|Hx]; [subst x; right; lia|apply wf_zone; [exact Hw|exact Hx]].
-           ++ intros _. apply wf_win. exact Hw.
-           ++ discriminate.
-           ++ assumption.
-           ++ discriminate.
-           ++ lia.
-        -- intros r c Hr Hc. rewrite (sk_bit_windowed s1 r c Hw1), (sk_bit_windowed s r c Hw).
-           unfold s1, tlist. proj. rewrite Ht, memN_cons, (N.eqb_sym (r * 64 + c) rc), pair_eqb by exact Hc.
-           rewrite (N.eqb_sym (rc mod 64) c).
-           destruct (c <? c_off s) eqn:Ec1.
-           ++ assert (c =? rc mod 64 = false) as -> by lia. rewrite andb_false_r, orb_false_r. reflexivity.
-           ++ destruct (c <? c_off s + 8) eqn:Ec2.
-              ** assert (c =? rc mod 64 = false) as -> by lia. rewrite andb_false_r, orb_false_r. reflexivity.
-              ** apply orb_comm.
+        assert (R1 : Rep s1 (spec_update M rc)).
+        { apply (rep_novel s s1 M rc R); try assumption; try reflexivity.
+          - destruct W. constructor; rewrite ?Hw1; unfold s1, tlist in *; proj; rewrite ?Ht in *.
+            + constructor; [apply memN_false; exact Emem|exact ND].
+            + intros x [Hx|Hx]; [subst x; exact Hrow'|apply wf_rows; exact Hx].
+            + intros x [Hx|Hx]; [subst x; exact Hrc|apply wf_nomax; exact Hx].
+            + intros _ x [Hx|Hx]; [subst x; right; lia|apply wf_zone; [exact Hw|exact Hx]].
+            + intros _. apply wf_win. exact Hw.
+            + discriminate.
+            + assumption.
+            + discriminate.
+            + lia.
+          - intros r c Hr Hc. rewrite (sk_bit_windowed s1 r c Hw1), (sk_bit_windowed s r c Hw).
+            unfold s1, tlist. proj. rewrite Ht, memN_cons, (N.eqb_sym (r * 64 + c) rc), pair_eqb by exact Hc.
+            rewrite (N.eqb_sym (rc mod 64) c).
+            destruct (c <? c_off s) eqn:Ec1.
+            + assert (c =? rc mod 64 = false) as -> by lia. rewrite andb_false_r, orb_false_r. reflexivity.
+            + destruct (c <? c_off s + 8) eqn:Ec2.
+              * assert (c =? rc mod 64 = false) as -> by lia. rewrite andb_false_r, orb_false_r. reflexivity.
+              * apply orb_comm. }
+        assert (Hfull : tbl_full lgk (N.of_nat (length t) + 1) = false).
+        { pose proof (table_load s1 _ R1) as TL. rewrite Hw1 in TL.
+          assert (El : tlist s1 = rc :: t) by reflexivity. rewrite El in TL. cbn [length] in TL.
+          assert (Ek : c_lgk s1 = lgk) by exact Hl. assert (Eo : c_off s1 = c_off s) by reflexivity. rewrite Ek, Eo in TL.
+          assert (Ep : pop_rows (spec_update M rc) (Knat lgk) = c_num s + 1).
+          { pose proof (rep_num s1 _ R1) as Hn'. rewrite Ek in Hn'. rewrite <- Hn'. reflexivity. }
+          destruct Hfits as [_ Hf2]. rewrite Ep in Hf2. destruct (Hf2 ltac:(lia)) as [Ha _].
+          replace (c_num s + 1 - 1) with (c_num s) in Ha by lia. rewrite <- Hoff in Ha.
+          replace (N.of_nat (length t) + 1) with (N.of_nat (S (length t))) by lia. rewrite TL. exact Ha. }
+        rewrite Hfull. cbn [obind].
+        change (exists s', uw_finish lgk s (set_table s (Some (rc :: t))) rc = Ok s' /\ Inv lgk s' (spec_update M rc)).
+        apply finish_ok; try assumption; proj; try reflexivity; try discriminate.
 Qed.
